@@ -496,7 +496,23 @@ fn c08(r: &mut Rng, i: u64, p: &HashMap<String, String>) -> Vec<Value> {
     f.odd_href = r.chance(1, 2);
     f.sup = r.chance(1, 4);
     let mut g = G::new(r, f);
-    let body = g.flow(0);
+    let mut body = g.flow(0);
+    // links nest through a table cell (`<a>` inside `<a>` is re-parented by the parser, `<a><table><td><a>` is not):
+    // the outer link starts first, so it is the earlier one in document order, and ends after the inner ones
+    if g.r.chance(1, 8) {
+        let lk = |t: String, h: String| N::ela("a", vec![("href", h)], vec![N::T(t)]);
+        let k = g.r.below(1000);
+        let ncell = g.r.range(1, 3);
+        let cells: Vec<N> = (0..ncell).map(|c| N::el("td", if g.r.chance(1, 4) { vec![N::T(format!("nc{}x{}", k, c))] }
+                                                          else { vec![N::T(format!("ni{}y{} ", k, c)), lk(format!("nl{}z{}", k, c), format!("http://in.example/{}/{}", k, c))] })).collect();
+        let mut kids = vec![];
+        if g.r.chance(2, 3) { kids.push(N::T(format!("npre{} ", k))); }
+        kids.push(N::el("table", vec![N::el("tr", cells)]));
+        if g.r.chance(2, 3) { kids.push(N::T(format!(" npost{}", k))); }
+        let outer = N::ela("a", vec![("href", format!("http://out.example/{}", k))], kids);
+        let at = g.r.below(body.len() as u64 + 1) as usize;
+        body.insert(at, outer);
+    }
     let html = doc_html(&body);
     let w = r.range(10, wmax(p, 120));
     let deco = *r.pick(&["plain", "trivial", "rich", "plain_nd"]);
@@ -665,7 +681,9 @@ fn c05(r: &mut Rng, i: u64, p: &HashMap<String, String>) -> Vec<Value> {
     if r.chance(1, 6) { ops.push(json!(["max_wrap", r.range(1, 40)])); }
     if r.chance(1, 8) { ops.push(json!(["pad"])); }
     if r.chance(1, 10) { ops.push(json!(["min_wrap", r.range(0, 6)])); }
-    vec![json!({"id": id("c05", i), "runs": [run(&doc_html(&[t]), w, cfg("plain", ops), "string")]})]
+    // (sometimes through the staged calls on a clone of the render tree: a clone keeps every cell in its place)
+    let route = if r.chance(1, 5) { "staged_clone_string" } else { "string" };
+    vec![json!({"id": id("c05", i), "runs": [run(&doc_html(&[t]), w, cfg("plain", ops), route)]})]
 }
 /// C06: as C05 without nesting, every non-empty cell filled with copies of its own unique character.
 fn c06(r: &mut Rng, i: u64, p: &HashMap<String, String>) -> Vec<Value> {
@@ -681,7 +699,9 @@ fn c06(r: &mut Rng, i: u64, p: &HashMap<String, String>) -> Vec<Value> {
     if r.chance(1, 6) { ops.push(json!(["max_wrap", r.range(1, 40)])); }
     if r.chance(1, 8) { ops.push(json!(["pad"])); }
     if r.chance(1, 10) { ops.push(json!(["min_wrap", r.range(0, 6)])); }
-    vec![json!({"id": id("c06", i), "meta": {"cells": cells}, "runs": [run(&doc_html(&[t]), w, cfg("plain", ops), "string")]})]
+    // (sometimes through the staged calls on a clone of the render tree: a clone keeps every cell in its place)
+    let route = if r.chance(1, 5) { "staged_clone_string" } else { "string" };
+    vec![json!({"id": id("c06", i), "meta": {"cells": cells}, "runs": [run(&doc_html(&[t]), w, cfg("plain", ops), route)]})]
 }
 
 /// C10: 1-2 documents, one configuration, a random valid history of one-shot and staged calls over a
@@ -1121,6 +1141,55 @@ fn c18(r: &mut Rng, i: u64, p: &HashMap<String, String>) -> Vec<Value> {
         let style = sheet_text(&author, r, &canonical());
         let wrap = |b: String| format!("<html><head><style>{}</style></head><body>{}</body></html>", style, b);
         let (h1, h2) = (wrap(doc(&span)), wrap(doc("<!---->")));
+        let deco = *r.pick(&["plain", "rich", "plain_nd"]);
+        let route = if deco == "rich" { "lines" } else { "string" };
+        let w = r.range(4, wmax(p, 60));
+        let on = cfg(deco, vec![json!(["doccss"])]);
+        return vec![json!({"id": id("c18", i), "meta": {"css": {"agent": [], "user": [], "author": author}},
+                           "runs": [run(&h1, w, on.clone(), route), run(&h2, w, on, route)]})];
+    }
+    // another shape of its own: a chain of nested blocks whose names and classes repeat, and a display:none rule that
+    // reaches a <span> at the bottom through 2-4 compounds joined by child / descendant combinators - matching has to
+    // backtrack over the ancestors (`.m > div span`: the nearest div is not a child of .m, a farther one is)
+    if r.chance(1, 8) {
+        let n = r.range(3, 5) as usize;
+        let mut path: Vec<(String, String)> = (0..n).map(|_| ((*r.pick(&["div", "section", "div"])).to_string(), (*r.pick(&["m", "n", "", ""])).to_string())).collect();
+        path.push(("span".to_string(), "s".to_string()));
+        let t: Vec<String> = (0..5).map(|k| format!("u{}{}", (b'a' + k as u8) as char, (b'a' + r.below(26) as u8) as char)).collect();
+        // the selector: an ascending choice of chain elements, then the span
+        let mut idx: Vec<usize> = (0..n).filter(|_| r.chance(1, 2)).collect();
+        if idx.is_empty() { idx.push(r.below(n as u64) as usize); }
+        while idx.len() > 3 { let k = r.below(idx.len() as u64) as usize; idx.remove(k); }
+        idx.push(n);
+        let mut comps: Vec<(String, String, String)> = vec![];        // (comb, name, class)
+        for (q, &pi) in idx.iter().enumerate() {
+            let comb = if q == 0 { "" } else if idx[q - 1] + 1 == pi { if r.chance(1, 2) { "child" } else { "desc" } } else if r.chance(3, 4) { "desc" } else { "child" };
+            let (nm, cl) = &path[pi];
+            let by_class = !cl.is_empty() && r.chance(1, 2);
+            comps.push((comb.to_string(), if by_class { String::new() } else { nm.clone() }, if by_class { cl.clone() } else { String::new() }));
+        }
+        fn m(comps: &[(String, String, String)], path: &[(String, String)], ci: usize, pi: usize) -> bool {
+            let (comb, nm, cl) = &comps[ci];
+            if !(nm.is_empty() || *nm == path[pi].0) || !(cl.is_empty() || *cl == path[pi].1) { return false; }
+            if ci == 0 { return true; }
+            if comb == "child" { pi > 0 && m(comps, path, ci - 1, pi - 1) } else { (0..pi).any(|q| m(comps, path, ci - 1, q)) }
+        }
+        let hidden = m(&comps, &path, comps.len() - 1, n);
+        let sel: Vec<Value> = comps.iter().map(|(c, nm, cl)| json!({"comb": c, "name": nm, "star": false, "cls": if cl.is_empty() { json!([]) } else { json!([cl]) }, "id": "", "nth": []})).collect();
+        let author = json!([rule(vec![Value::Array(sel)], vec![json!({"prop": "display", "val": "none", "imp": false})])]);
+        let style = sheet_text(&author, r, &canonical());
+        let doc = |inner: &str| {
+            let mut open = String::new(); let mut close = String::new();
+            for (k, (nm, cl)) in path[..n].iter().enumerate() {
+                open.push_str(&if cl.is_empty() { format!("<{}>", nm) } else { format!("<{} class=\"{}\">", nm, cl) });
+                if k == 0 { open.push_str(&format!("{} ", t[0])); }
+                close = format!("</{}>{}", nm, close);
+            }
+            format!("{}{} {} {}{} {}", open, t[1], inner, t[3], close, t[4])
+        };
+        let span = format!("<span class=\"s\">{}</span>", t[2]);
+        let wrap = |b: String| format!("<html><head><style>{}</style></head><body>{}</body></html>", style, b);
+        let (h1, h2) = (wrap(doc(&span)), wrap(doc(if hidden { "<!---->" } else { &span })));
         let deco = *r.pick(&["plain", "rich", "plain_nd"]);
         let route = if deco == "rich" { "lines" } else { "string" };
         let w = r.range(4, wmax(p, 60));
